@@ -717,3 +717,11 @@ Proof.
   destruct (certified_lows p (dense_of_sparse (length (filtration M T n dim_max)) cols)) as [lw|] eqn:EC; [|discriminate].
   intros _. exists cols, lw. split; [reflexivity|]. split; [apply faces_precede_spec; exact E|exact EC].
 Qed.
+
+(* ================================================================== J. the clamped dimension fits dimension_t = int8_t *)
+Theorem clamp_dim_fits n dim_max : clamp_dim n dim_max + 2 <= 127 /\ clamp_dim n dim_max <= dim_max /\
+  (dim_max <= n - 2 -> dim_max <= 125 -> clamp_dim n dim_max = dim_max).
+Proof.
+  unfold clamp_dim, dim_limit.
+  destruct (Z.ltb_spec (n - 2) dim_max); destruct (Z.ltb_spec 125 (n - 2)); destruct (Z.ltb_spec 125 dim_max); lia.
+Qed.
